@@ -11,7 +11,7 @@ import time
 from . import vlib, bigstep
 from .vlib import Inconclusive
 
-ALL_DEV = ["R16", "R20"]
+ALL_DEV = ["R16", "R20", "R21"]
 
 ROOT = dict(pa=0, name="", node=1)
 
